@@ -1,6 +1,7 @@
 //! crossbeam-channel look-alike (the subset rs-store and rusty_pool use, and a little more):
 //! FIFO, bounded (capacity >= 1) or unbounded, blocking send/recv decided by the simulator,
-//! drain-then-disconnect semantics as documented by crossbeam.  Capacity 0 is not modelled.
+//! drain-then-disconnect semantics as documented by crossbeam.  Capacity 0 (rendezvous) is
+//! modelled as "a send succeeds only while a receiver is waiting for it".
 
 use crate::rt::{self, Obj, Op, SeamEvent, Wake};
 use std::collections::VecDeque;
@@ -13,6 +14,18 @@ struct Chan<T> {
     cap: Option<usize>,
     senders: usize,
     receivers: usize,
+    /// receivers currently blocked in recv (needed for rendezvous channels)
+    recv_waiting: usize,
+}
+
+impl<T> Chan<T> {
+    fn full(&self) -> bool {
+        match self.cap {
+            None => false,
+            Some(0) => self.q.len() >= self.recv_waiting,
+            Some(c) => self.q.len() >= c,
+        }
+    }
 }
 
 struct Shared<T> {
@@ -29,11 +42,6 @@ pub struct Receiver<T> {
 }
 
 pub fn bounded<T>(cap: usize) -> (Sender<T>, Receiver<T>) {
-    if cap == 0 {
-        // harness error, not a property violation
-        eprintln!("simrt: rendezvous channels (capacity 0) are not modelled");
-        std::process::exit(2);
-    }
     make(Some(cap))
 }
 
@@ -46,7 +54,7 @@ fn make<T>(cap: Option<usize>) -> (Sender<T>, Receiver<T>) {
     rt::emit(SeamEvent::ChanCreate { chan: id, cap, tid: rt::current_tid() });
     let sh = Arc::new(Shared {
         id,
-        st: StdMutex::new(Chan { q: VecDeque::new(), cap, senders: 1, receivers: 1 }),
+        st: StdMutex::new(Chan { q: VecDeque::new(), cap, senders: 1, receivers: 1, recv_waiting: 0 }),
     });
     (Sender { sh: sh.clone() }, Receiver { sh })
 }
@@ -66,7 +74,7 @@ impl<T> Sender<T> {
                 if c.receivers == 0 {
                     return Err(SendError(msg.take().unwrap()));
                 }
-                let full = c.cap.map(|cap| c.q.len() >= cap).unwrap_or(false);
+                let full = c.full();
                 if !full {
                     c.q.push_back(msg.take().unwrap());
                     let len = c.q.len();
@@ -89,7 +97,7 @@ impl<T> Sender<T> {
         if c.receivers == 0 {
             return Err(TrySendError::Disconnected(msg));
         }
-        let full = c.cap.map(|cap| c.q.len() >= cap).unwrap_or(false);
+        let full = c.full();
         if full {
             drop(c);
             rt::emit(SeamEvent::ChanFull { chan: self.sh.id, tid: rt::current_tid() });
@@ -113,7 +121,7 @@ impl<T> Sender<T> {
     pub fn is_full(&self) -> bool {
         rt::point(Op::ChanLen);
         let c = self.sh.st.lock().unwrap();
-        c.cap.map(|cap| c.q.len() >= cap).unwrap_or(false)
+        c.full()
     }
     pub fn capacity(&self) -> Option<usize> {
         self.sh.st.lock().unwrap().cap
@@ -167,7 +175,15 @@ impl<T> Receiver<T> {
             if !rt::in_sim() {
                 panic!("simrt channel: blocking recv outside a simulation");
             }
-            if rt::block(Obj::ChanRecv(self.sh.id), deadline_ns) == Wake::TimedOut {
+            // a rendezvous sender may go ahead while we wait
+            self.sh.st.lock().unwrap().recv_waiting += 1;
+            rt::wake_all(Obj::ChanSend(self.sh.id));
+            let woke = rt::block(Obj::ChanRecv(self.sh.id), deadline_ns);
+            {
+                let mut c = self.sh.st.lock().unwrap();
+                c.recv_waiting -= 1;
+            }
+            if woke == Wake::TimedOut {
                 // one last look, as crossbeam does
                 let mut c = self.sh.st.lock().unwrap();
                 if let Some(m) = c.q.pop_front() {
@@ -218,7 +234,7 @@ impl<T> Receiver<T> {
     pub fn is_full(&self) -> bool {
         rt::point(Op::ChanLen);
         let c = self.sh.st.lock().unwrap();
-        c.cap.map(|cap| c.q.len() >= cap).unwrap_or(false)
+        c.full()
     }
     pub fn capacity(&self) -> Option<usize> {
         self.sh.st.lock().unwrap().cap
